@@ -184,6 +184,16 @@ def apply_rewrites(fn, sig, body, contract, log):
                 raise LostAnchor('%s: X4 expects exactly one `|_|`' % fn)
             body = body.replace('|_|', '|_x|')
             log.append({'rule': 'X4', 'fn': fn, 'what': 'closure parameter `_` named'})
+        elif rw == 'X6':
+            # anyhow!( ... )  ->  anyhow_error()   (message dropped, control flow kept)
+            if body.count('anyhow!') != 1:
+                raise LostAnchor('%s: X6 expects exactly one anyhow!' % fn)
+            i = body.index('anyhow!')
+            spans = lex_spans(body[i:])
+            k0 = next(q for q, sp in enumerate(spans) if sp[0] == 'punct' and body[i + sp[1]] == '(')
+            kc = match_close(body[i:], spans, k0)
+            body = body[:i] + 'anyhow_error()' + body[i + spans[kc][2]:]
+            log.append({'rule': 'X6', 'fn': fn, 'what': 'anyhow!(..) replaced by opaque constructor'})
         elif rw == 'X5':
             body, n = strip_eprintln(body, fn)
             log.append({'rule': 'X5', 'fn': fn, 'what': '%d eprintln!/indentation statements removed' % n})
@@ -307,7 +317,7 @@ def apply_hints(fn, body, contract, log):
         log.append({'rule': 'X9', 'fn': fn, 'what': 'ghost closure contract after %r' % anchor})
     return body
 
-def emit_fn(out, item, relfile, container, contracts, in_trait_decl=False, indent=''):
+def emit_fn(out, item, relfile, container, contracts, in_trait_decl=False, indent='', as_free=None):
     kind, name = header_kind_name(item.header)
     key = (relfile, container, name)
     qual = (container + '::' if container != '-' else '') + name
@@ -317,6 +327,16 @@ def emit_fn(out, item, relfile, container, contracts, in_trait_decl=False, inden
         out.log.append({'rule': 'X1', 'fn': qual, 'what': 'dropped ' + '; '.join(d.split('\n')[0][:50] for d in dropped)})
     sig = item.header
     body = item.body
+    if as_free is not None:
+        # X6: a trait-impl method is verified as a free function with the same parameters and body
+        newname = as_free['prefix'] + '__' + name
+        if len(re.findall(r'\bfn ' + name + r'\b', sig)) != 1: raise LostAnchor('%s: fn name not found' % qual)
+        sig = re.sub(r'\bfn ' + name + r'\b', 'fn ' + newname, sig)
+        for a, b in as_free.get('subst', []):
+            sig = sig.replace(a, b)
+        if not sig.lstrip().startswith('pub'):
+            sig = 'pub ' + sig.lstrip()
+        out.log.append({'rule': 'X6', 'fn': qual, 'what': 'trait-impl method emitted as free fn %s; %s' % (newname, as_free.get('subst', []))})
     lo = out.lineno
     if contract is None:
         # no contract: extracted verbatim (Verus still checks panics / overflow / callee preconditions)
@@ -397,6 +417,17 @@ def extract(repo, plan, contracts, out):
             elif want['kind'] == 'fn':
                 emit_fn(out, it, relfile, '-', contracts)
                 out.emit('')
+            elif want['kind'] == 'impl_as_fns':
+                cname = want['as']
+                inner = find_items(src[it.body_open + 1:it.body_close], relfile)
+                for sub in inner:
+                    k, n = header_kind_name(sub.header)
+                    if k == 'type':
+                        out.log.append({'rule': 'X6', 'fn': cname, 'what': 'associated `%s` dropped' % sub.header})
+                        continue
+                    if k != 'fn': raise LostAnchor('%s: unexpected %s in %s' % (relfile, k, cname))
+                    emit_fn(out, sub, relfile, cname, contracts, as_free={'prefix': cname, 'subst': want.get('subst', [])})
+                    out.emit('')
             elif want['kind'] in ('impl', 'trait'):
                 cname = want.get('as') or container_name(it.header)
                 header = it.header
